@@ -19,5 +19,7 @@ def run(chk, F):
     chk.guard("writes-after-sort", "load_defs", lambda: L.registry_writes_after_sort(chk, F))
     chk.guard("walk-coverage", "Resolver", lambda: L.walk_coverage(chk, F))
     chk.guard("single-load", "config::load", lambda: L.single_load_cli(chk, F))
+    import c07
+    chk.guard("fallback-order", "Resolver::lookup", lambda: c07.family(chk, F, "Resolver::lookup", "loader::load::Resolver::lookup_exact", "loader::load::Resolver::lookup_with_prefix", "loader::load::Resolver::lookup", {}))
     chk.guard("load-is-a-function-of-text", "loader", lambda: L.determinism(chk, F))
     chk.guard("unique-names", "data", lambda: datafiles.unique_names(chk))
